@@ -99,6 +99,40 @@ def result_obs(res):
             "coords": sorted(str(c) for c in out.coords)}
 
 
+def dim_variants(data, dims, geo_dims, chunks, attrs, kinds):
+    """The SAME field offered with its geolocation dims in another order / under other names / not adjacent."""
+    out = []
+    gax = [dims.index(g) for g in geo_dims]
+    for kind in kinds:
+        arr, nd = None, None
+        if kind == "swap" and len(gax) == 2:
+            arr = np.ascontiguousarray(np.swapaxes(data, gax[0], gax[1]))
+            nd = list(dims)
+            nd[gax[0]], nd[gax[1]] = dims[gax[1]], dims[gax[0]]
+        elif kind == "rename":
+            arr = data
+            nd = [("g%d_%s" % (geo_dims.index(d), d)) if d in geo_dims else d for d in dims]
+        elif kind == "split" and len(gax) == 2 and data.ndim > 2:
+            other = [i for i in range(data.ndim) if i not in gax][0]
+            order = [i for i in range(data.ndim) if i != other]
+            pos = order.index(gax[1])
+            order.insert(pos, other)                      # ..., y, <other>, x, ...
+            arr = np.ascontiguousarray(np.transpose(data, order))
+            nd = [dims[i] for i in order]
+        if arr is None:
+            continue
+        da_ = xr.DataArray(da.from_array(arr, chunks=tuple(min(c, 3) if c else c for c in arr.shape)), dims=tuple(nd), attrs=dict(attrs))
+        out.append((kind, nd, da_))
+    return out
+
+
+def run_variant(fn):
+    try:
+        return result_obs(fn())
+    except Exception as e:  # noqa
+        return err(e)
+
+
 def numpy_reference(src_n, tgt_n, data, geo_axes, radius, fill):
     """The numpy resampler on the same geometries; data moved to (source pixels, channels)."""
     nd = data.ndim
@@ -202,6 +236,9 @@ def run_case(case):
                 e = err(ex)
             rag.append(e)
         leg["ragged"] = rag
+        r.index_array = ia
+        leg["dim_variants"] = [{"kind": k, "dims": nd, "res": run_variant(lambda: r.get_sample_from_neighbour_info(v, fill_value=fill_x))}
+                               for k, nd, v in dim_variants(data, list(dims), list(geo_dims), None, attrs, case.get("dim_variants") or [])]
     except Exception as e:  # noqa
         leg.update(err(e))
     o["legacy"] = leg
@@ -253,6 +290,9 @@ def run_case(case):
                 e = err(ex)
             rag.append(e)
         fut["ragged"] = rag
+        fut["dim_variants"] = [{"kind": k, "dims": nd, "res": run_variant(
+            lambda: KDTreeNearestXarrayResampler(src_x, tgt_x).resample(v, mask_area=mask_area, fill_value=fill_x, radius_of_influence=radius))}
+            for k, nd, v in dim_variants(data, list(dims), list(geo_dims), None, attrs, case.get("dim_variants") or [])]
     except Exception as e:  # noqa
         fut.update(err(e))
     o["future"] = fut
